@@ -725,7 +725,7 @@ func runC07(c *Ctx) {
 	R.Rules["S.codec-helpers"] = "GBK2UTF8 / UTF82GBK return, on every path, what the GBK decoder / encoder produced from the whole argument (no bypass that hands back the input); String2FillingBytes returns exactly `size` bytes on every path; Time2BCD / BCD2Time transcode digits without interpreting them (they call nothing from time / strconv), so the symbolic inverse-pair treatment of BCD time fields holds for fields that are not calendar dates too"
 	var decidedN, notCov int
 	var notCovered []string
-	var decidedNames []string
+	var decidedNames, listNames []string
 	assume := map[string][]string{}
 	for _, t0 := range c.c07Types() {
 		for _, t := range c.c07Variants(t0) {
@@ -759,7 +759,10 @@ func runC07(c *Ctx) {
 				// list-carrying types: record layout per element
 				if lr := c.c07List(t); lr.decided {
 					decidedN++
-					decidedNames = append(decidedNames, name)
+					// list types are not part of the frozen coverage set: the record comparison is bound to the shape of the two
+					// loops (records appended / read inline), so a helper extracted from a loop body would turn "decided" into
+					// "undecided" without any change of behaviour
+					listNames = append(listNames, name)
 					st, d := report.Discharged, ""
 					if len(lr.problems) > 0 {
 						st, d = report.Violated, strings.Join(lr.problems, "; ")
@@ -844,6 +847,8 @@ func runC07(c *Ctx) {
 	}
 	sort.Strings(decidedNames)
 	R.Notes["types_decided_names"] = decidedNames
+	sort.Strings(listNames)
+	R.Notes["list_types_decided_names"] = listNames
 	for _, n := range notCovered {
 		if wasCovered[n] {
 			R.Add("E3.roundtrip-layout", n+" / field placements", "", report.Undecided, "this type's round trip was decided on the confirmed tree (spec/c07_covered.json); its encoder or parser can no longer be taken apart by the layout extraction, so nothing is known about it now")
